@@ -850,7 +850,16 @@ func (s *State) extendFunctionEnv(
 		// A parameter named like the function itself is not read from the store: Get answers the function
 		// for that name. Keep it a plain variable, so that registers do not change what the name means.
 		ownName := fn.Name != nil && fn.Name.Literal() == param.Value().Literal()
-		if !s.NoReg && pval.Type() == object.INTEGER && env.HasRegisters() && !object.Constant(param.Value().Literal()) && !object.ReservedName(param.Value().Literal()) && !ownName {
+		// func(a, a){a}: the last parameter of a name wins (it overwrites the binding); an earlier one must not take
+		// the name's occurrences in the body for its register.
+		shadowed := false
+		for _, later := range params[paramIdx+1:] {
+			if later.Value().Literal() == param.Value().Literal() {
+				shadowed = true
+				break
+			}
+		}
+		if !s.NoReg && pval.Type() == object.INTEGER && env.HasRegisters() && !object.Constant(param.Value().Literal()) && !object.ReservedName(param.Value().Literal()) && !ownName && !shadowed {
 			// We will release all these registers just by returning/dropping the env.
 			reg, nbody, ok := setupRegister(env, param.Value().Literal(), pval.(object.Integer).Value, newBody)
 			if ok {
